@@ -22,7 +22,26 @@ def drivers(tier):
             explicit_ids=(1,), max_autos=1,
             shapes=((), ('A',), ('HD',), ('A', 'HD')), **common),
             dict(max_states=400000, time_budget=400))
+        # one entity, order-preserving key: what an on_remove callback
+        # sees depends on the order in which the components are walked
+        d['ordered-components'] = (WorldDriver(
+            'ordered-components', types=('A', 'HD'), ids=(1,),
+            explicit_ids=(1,), max_autos=1, coarse=False,
+            shapes=((), ('A',), ('HD',), ('A', 'HD'), ('HD', 'A')),
+            **common),
+            dict(max_states=400000, time_budget=400))
+        # identifiers of unrelated (not mutually orderable) types
+        d['mixed-ids'] = (WorldDriver(
+            'mixed-ids', types=('A',), ids=(1, 's', (2, 3)),
+            explicit_ids=('s', (2, 3)), max_autos=1,
+            shapes=((), ('A',)), **common),
+            dict(max_states=400000, time_budget=400))
     else:
+        d['mixed-ids'] = (WorldDriver(
+            'mixed-ids', types=('A', 'HD'), ids=(1, 's', (2, 3)),
+            explicit_ids=('s', (2, 3)), max_autos=1,
+            shapes=((), ('A',), ('HD',)), **common),
+            dict(max_states=1500000, time_budget=1500))
         d['deferred-fixpoint'] = (WorldDriver(
             'deferred-fixpoint', types=('A', 'B', 'H'), ids=(1, 2),
             explicit_ids=(1, 2), max_autos=2,
